@@ -14,7 +14,7 @@ import (
 
 func init() {
 	vf.Register(&vf.CheckDef{ID: "C11", Level: "model_checking", Run: run,
-		Workers: map[string]vf.WorkerFunc{"ids": idWorker, "anon": anonWorker, "comma": commaWorker}})
+		Workers: map[string]vf.WorkerFunc{"ids": idWorker, "anon": anonWorker, "comma": commaWorker, "gval": gvalWorker}})
 }
 
 var anchoredVerbs = []string{"head", "tail", "decimate", "filter", "grep", "having-fields", "sample", "bootstrap", "shuffle", "tac",
@@ -27,12 +27,18 @@ func run(c *vf.Ctx) {
 		"on each: head/tail -n k for EVERY k in -(N+1)..N+1, tail -n +k for k in 0..N+2, with and without -g (and --records-per-batch 1), decimate -n 1..N+1 and default x {default,-b,-e} x -g, "+
 		"%d filter expressions x {-,-x}, %d grep patterns x -i x -a x -v, %d having-fields configurations, sample -k 0..N+1 x -g x 3 seeds, bootstrap, shuffle, tac, tac then tac, group-by (4 lists), group-like, uniq -a [-c|-n], cat [-n|-N] [-g], nothing, skip-trivial-records. "+
 		"anon pass: every JSON-Lines stream of N<=%d records without ids over 9 shapes (incl. {} and repeats). comma pass: every stream of N<=%d records over 4 (g,h) value pairs containing ',' and 3 key shapes containing ','. "+
+		"spellings (on every ids stream, with and without -g): glued -nK/-kK for K in 0..N+1 (head, tail, decimate, sample, bootstrap), head -n -0, tail -n +0/-0, invalid counts (decimate -n 0/-1, sample -k -1, bootstrap -n -1), and for N<=%d the extremes 2^63-1, -(2^63-1), -2^63, 2^32+1, -(2^32+1), 2^31 of head/tail/tail +/decimate [-b] (sample: 2^63-1 only). "+
+		"gval pass: every DKVP stream of N<=%d records (unique id) over g in {a, EMPTY, absent, '(absent)', '(error)'} x h in {absent, EMPTY} (10^N); on each, with -g g and -g g,h (thorough tier: also -g h,g): head -n 1|2|-1, tail -n 1|2|+1|+2, decimate -n 1|2|2 -b, sample -k 1|2, group-by, cat -n|-N idx, and the two partition laws. "+
 		"distinct_nontrivial counts the cases whose required selection is neither empty nor the whole input unchanged.",
-		b.fullN, b.maxN, len(filterCases), len(grepPatterns), len(idHFCases), anonMaxN(c.Quick()), commaMaxN(c.Quick()))
+		b.fullN, b.maxN, len(filterCases), len(grepPatterns), len(idHFCases), anonMaxN(c.Quick()), commaMaxN(c.Quick()), hugeMaxN, gvalMaxN(c.Quick()))
 
 	c.Assume("records lacking a -g / group-by field belong to no group and are not output by head/tail/decimate/sample/group-by (property: 'group sizes sum to the number of records having the group-by fields'); cat -n -g passes them with a counter whose value is not asserted")
 	c.Assume("order ACROSS groups is not asserted for tail -n k -g, head -n -k -g and sample -g (usage texts fix none); the set, and the input order within each group, are")
-	c.Assume("not documented, so only 'selects input records, none twice' is asserted: tail -n with a negative count, tail -n +0; head -n +k is not run (spelling not in head's usage)")
+	c.Assume("not documented, so only 'selects input records, none twice, no panic' is asserted: tail -n with a negative count (incl. -0 and -2^63); head -n +k is not run (spelling not in head's usage); head -n -0 may print nothing (first 0) or everything (all but the last 0)")
+	c.Assume("tail -n +0 is tail -n +1: '+n starts at the nth record' of records numbered from 1, 'as with GNU tail' (reference-verbs.md); tail -n +k is a superset of tail -n +(k+1) for every k >= 0")
+	c.Assume("a record lacking a group-by field belongs to no group, whatever VALUES other records have there: the empty string and strings spelling Miller's sentinels ('(absent)', '(error)') are ordinary group values")
+	c.Assume("the glued spelling -nK (source: lib.Getoptify, regression cases verb-head/0006, verb-tail/0006) means -n K when accepted; counts a verb reports as invalid (decimate -n <= 0, sample -k < 0, bootstrap -n < 0) may be rejected or accepted, but never panic or invent records")
+	c.Assume("sample -k between 2^27 and 2^63-2 and bootstrap -n beyond N+1 are not run (memory / output proportional to the count)")
 	c.Assume("decimate -b: whether the first record of a trailing incomplete bunch is printed is not asserted; decimate -b together with -e is not run")
 	c.Assume("filter: for $x==1 and $x>0 the cell 'x is empty' is not asserted (comparison of empty with a number); compound expressions are checked by the partition law only; a filter value that is neither boolean nor absent is outside the property (must only not panic)")
 	c.Assume("sample/bootstrap/shuffle: multiset laws only (sizes, membership, no repeats for sample/shuffle) under --seed 1..3; which records are drawn, and their order, are free; statistical uniformity is out of reach")
@@ -46,6 +52,7 @@ func run(c *vf.Ctx) {
 	r1 := c.RunPool(vf.PoolSpec{Worker: "ids", Shards: 128})
 	r2 := c.RunPool(vf.PoolSpec{Worker: "anon", Shards: 64})
 	c.RunPool(vf.PoolSpec{Worker: "comma", Shards: 16})
+	c.RunPool(vf.PoolSpec{Worker: "gval", Shards: 64})
 
 	// evidence: hit counts per verb / flag / parameter class / alphabet symbol
 	groups := map[string]map[string]int64{}
@@ -69,9 +76,18 @@ func run(c *vf.Ctx) {
 			c.Broken("verb %s was never exercised", v)
 		}
 	}
-	for _, sym := range []string{"g=a", "g=b", "g=absent", "x=1", "x=empty", "x=absent", "record {}", "record with only empty values"} {
+	for _, sym := range []string{"g=a", "g=b", "g=absent", "x=1", "x=empty", "x=absent", "record {}", "record with only empty values",
+		"gval g=a", "gval g=empty", "gval g=absent", "gval g=(absent)", "gval g=(error)", "gval h=absent", "gval h=empty"} {
 		if groups["symbol"][sym] == 0 {
 			c.Broken("alphabet symbol %s was never exercised", sym)
+		}
+	}
+	if groups["vacuity"]["gval streams with both a record lacking g and a record with empty g"] == 0 {
+		c.Broken("gval pass: no stream mixes a record lacking g with a record whose g is empty")
+	}
+	for _, p := range []string{"huge " + maxI64, "huge " + minI64, "glued -nK=0", "glued -nK=N+1"} {
+		if groups["param"][p] == 0 {
+			c.Broken("numeric-option boundary %s was never exercised", p)
 		}
 	}
 	outcomes := vf.SortedSet(r1, "outcomes")
@@ -86,5 +102,5 @@ func run(c *vf.Ctx) {
 	}
 	sort.Strings(dom)
 	c.Extra["domain_predicate_sides"] = dom
-	c.Extra["bounds"] = map[string]int{"ids_fullN": b.fullN, "ids_maxN": b.maxN, "anon_maxN": anonMaxN(c.Quick()), "comma_maxN": commaMaxN(c.Quick())}
+	c.Extra["bounds"] = map[string]int{"ids_fullN": b.fullN, "ids_maxN": b.maxN, "anon_maxN": anonMaxN(c.Quick()), "comma_maxN": commaMaxN(c.Quick()), "gval_maxN": gvalMaxN(c.Quick()), "huge_maxN": hugeMaxN}
 }
